@@ -242,6 +242,7 @@ class Ctx:
         self.known = json.loads(KNOWN.read_text()) if KNOWN.exists() else {"open": [], "fixed": []}
         self.known_seen = []
         self.model_available = DRIVER.exists()
+        self.dev = False
 
     # -- tiers
     @property
@@ -271,7 +272,8 @@ class Ctx:
             self.prove_ok = False
             self.violation("audit:forbidden-token", "audit", None, {"hits": hits[:20]},
                            "no sorry/admit/axiom/native_decide/bv_decide/implemented_by/unsafe in the Lean development", False)
-        ok, out = lake_build(["StraxModel", "driver"])
+        targets = ["driver", *mods] if self.dev else ["driver", "StraxModel"]
+        ok, out = lake_build(targets)
         self.prove_log = out[-4000:]
         if not ok:
             self.prove_ok = False
@@ -501,11 +503,13 @@ def main(argv=None):
     ap.add_argument("--tier", default=os.environ.get("VERIF_TIER", "quick"), choices=["quick", "thorough"])
     ap.add_argument("--replay")
     ap.add_argument("--skip-prove", action="store_true", help="development only")
+    ap.add_argument("--dev", action="store_true", help="development only: build just the driver and this property's modules")
     a = ap.parse_args(argv)
     seed = int(os.environ.get("VERIF_SEED", "0") or 0)
     try:
         mod = load_module(a.prop)
         ctx = Ctx(mod, a.tier, seed)
+        ctx.dev = a.dev
         if a.replay:
             body = json.loads(Path(a.replay).read_text())
             if not hasattr(mod, "replay"):
